@@ -368,6 +368,22 @@ def c05_cases(tier, seed):
                     la, lb = rnd.choice([[], [2]]), rnd.choice([[], [2], [1]])
                     dc = rnd.choice([None, [c], [r, c], [1, c]])
                     cases.append(mm_case(la + ([k, r] if ta else [r, k]), ta, lb + ([c, k] if tb else [k, c]), tb, dc))
+    # the SAME array as both factors (a x a^T, a^T x a, a x a for square a) with every additive-term form
+    for r, k in ((1, 2), (2, 2), (2, 3), (3, 2), (3, 3), (1, 1)):
+        for lead in ([], [2]):
+            for ta, tb in ((False, True), (True, False)) + (((False, False), (True, True)) if r == k else ()):
+                rows = k if ta else r
+                cols = r if tb and not ta else (k if ta and not tb else (r if not ta and not tb else k))
+                if ta == tb:
+                    rows = cols = r
+                for dc in (None, [cols], [rows, cols], [1, cols], [1]):
+                    steps = [RESET, leaf(1, lead + [r, k], [((3 * i) % 7) - 3 for i in range(prod(lead) * r * k)])]
+                    args = [1, 1]
+                    if dc is not None:
+                        steps.append(leaf(3, dc, [10 * (i + 1) + (i % 3) for i in range(prod(dc))]))
+                        args.append(3)
+                    steps.append(op("matmul", args, 4, ta=ta, tb=tb))
+                    cases.append(steps)
     # operands with whole rows / columns / aligned runs of zeros (skipping zero work must not skip non-zero work)
     for _ in range(400 if tier == "thorough" else 100):
         r, k, c = rnd.randint(1, 4), rnd.randint(1, 4), rnd.randint(1, 4)
